@@ -62,13 +62,15 @@ ItemsShapes == { <<"list1-iri", ListOf(<<I1>>)>>, <<"list2-iri", ListOf(<<I1, I3
                  <<"list-mixed", ListOf(<<I2, Note1, Link1>>)>>, <<"list2-object", ListOf(<<Note1, Person1>>)>> }
 NlvShapes == { <<"plain", Nlv(<<LR(NilTag, "hello")>>)>>, <<"tagged1", Nlv(<<LR("en", "hello")>>)>>,
                <<"multi2", Nlv(<<LR("en", "hello"), LR("fr", "salut")>>)>>,
-               <<"multi3", Nlv(<<LR("en", "hello"), LR("fr", "salut"), LR("de", "hallo")>>)>> }
+               <<"multi3", Nlv(<<LR("en", "hello"), LR("fr", "salut"), LR("de", "hallo")>>)>>,
+               <<"mixed", Nlv(<<LR(NilTag, "hello"), LR("fr", "salut")>>)>> }       \* an untagged value next to a tagged one ("-" key of a language map)
 TimeShapes(gob) == { <<"utc", T(1700000000, 0, 0)>>, <<"plus2", T(1700003600, 0, 7200)>>, <<"minus7", T(1600000000, 0, 0 - 25200)>> }
                    \cup (IF gob THEN {<<"nanos", T(1700000001, 123456789, 3600)>>} ELSE {})
-DurShapes == { <<"pos", Dur(5)>>, <<"neg", Dur(0 - 5)>>, <<"hour", Dur(3725)>>, <<"day", Dur(86400)>>, <<"neg3days", Dur(0 - 259200)>>, <<"dayhour", Dur(90000)>> }
+DurShapes == { <<"pos", Dur(5)>>, <<"neg", Dur(0 - 5)>>, <<"hour", Dur(3725)>>, <<"day", Dur(86400)>>, <<"neg3days", Dur(0 - 259200)>>, <<"dayhour", Dur(90000)>>,
+              <<"d28", Dur(2419200)>>, <<"neg29d", Dur(0 - 2505600)>>, <<"d340", Dur(29376000)>>, <<"d400h5", Dur(34578000)>> }   \* beyond the lengths of a month and a year
 UintShapes == { <<"one", Int(1)>>, <<"big", Int(123456)>> }
 IntShapes == { <<"pos", Int(12)>>, <<"neg", Int(0 - 12)>> }
-FloatShapes == { <<"pos", Flt("36.75")>>, <<"neg", Flt("-122.5")>>, <<"small", Flt("0.000001")>>, <<"whole", Flt("100")>> }
+FloatShapes == { <<"pos", Flt("36.75")>>, <<"neg", Flt("-122.5")>>, <<"small", Flt("0.000001")>>, <<"whole", Flt("100")>>, <<"precise", Flt("-122.4194155")>>, <<"tiny", Flt("0.0000001")>> }
 StrShapes(kind, t) ==
   CASE kind = "mime" -> {<<"mime", Str("text/html")>>}
     [] kind = "type" -> {<<"type", Str("Note")>>}
@@ -80,7 +82,9 @@ SourceShapes == { <<"plain", [k |-> "source", p |-> [content |-> Nlv(<<LR(NilTag
                   <<"multi", [k |-> "source", p |-> [content |-> Nlv(<<LR("en", "src"), LR("fr", "srcfr")>>), mediaType |-> Str("text/plain")]]>> }
 EndpointsShapes == { <<"ep-" \o EndpointsProps[i].t, [k |-> "endpoints", p |-> [x \in {EndpointsProps[i].t} |-> I1]]>> : i \in 1..Len(EndpointsProps) }
                    \cup { <<"ep-all", [k |-> "endpoints", p |-> [x \in Terms(EndpointsProps) |-> Iri(Base \o "ep/" \o x)]]>> }
-PubKeyShapes == { <<"full", [k |-> "pubkey", p |-> [id |-> Str(Base \o "actor#main-key"), owner |-> Str(Base \o "actor"), publicKeyPem |-> Str("-----BEGIN PUBLIC KEY-----MIIB-----END PUBLIC KEY-----")]]>> }
+PubKeyShapes == { <<"id-only", [k |-> "pubkey", p |-> [id |-> Str(Base \o "actor#main-key")]]>>, <<"owner-only", [k |-> "pubkey", p |-> [owner |-> Str(Base \o "actor")]]>>,
+                  <<"pem-only", [k |-> "pubkey", p |-> [publicKeyPem |-> Str("-----BEGIN PUBLIC KEY-----MIIB-----END PUBLIC KEY-----")]]>>,
+                  <<"full", [k |-> "pubkey", p |-> [id |-> Str(Base \o "actor#main-key"), owner |-> Str(Base \o "actor"), publicKeyPem |-> Str("-----BEGIN PUBLIC KEY-----MIIB-----END PUBLIC KEY-----")]]>> }
 
 Shapes(kind, t, deep, gob) ==
   CASE kind = "item" -> ItemShapes(deep)
@@ -128,9 +132,10 @@ FirstShape(r, gob) == CHOOSE sh \in Shapes(r.k, r.t, FALSE, gob) : TRUE
 
 \* embedded objects without id and type whose ONLY property is r (in a single-item position and in a list)
 UntypedOne(gob) ==
-  UNION {{ Case("untyped", "Object", r.t, "untyped-in-item", With(BaseV("Object", 2), "attachment", Obj("Object", [x \in {r.t} |-> FirstShape(r, gob)[2]]))),
-           Case("untyped", "Object", r.t, "untyped-in-list",
-                With(BaseV("Object", 2), "tag", ListOf(<<I1, Obj("Object", [x \in {r.t} |-> FirstShape(r, gob)[2]])>>))) }
+  UNION {UNION {{ Case("untyped", "Object", r.t, "untyped-in-item:" \o sh[1], With(BaseV("Object", 2), "attachment", Obj("Object", [x \in {r.t} |-> sh[2]]))),
+                  Case("untyped", "Object", r.t, "untyped-in-list:" \o sh[1],
+                       With(BaseV("Object", 2), "tag", ListOf(<<I1, Obj("Object", [x \in {r.t} |-> sh[2]])>>))) }
+                : sh \in Shapes(r.k, r.t, FALSE, gob)}
          : r \in OwnRows("Object")}
 Pairwise(G, gob) ==
   UNION {{Case("pair", g, r1.t \o "+" \o r2.t, "pair",
